@@ -220,4 +220,15 @@ example : combine 3 2 1 = .ok 2 := by rfl
 example : setFactors 100 1 [0, 0, 0] [100, 7] = .ok [100, 7, 0] := by rfl
 example : setFactors 100 1 [0, 0, 0] [101, 7] = .error .arg := by rfl
 
+-- `referred_ge_unreferred`, `discount_le_unit`, `program_discount_formula`: all hypotheses at once (factors capped by the unit,
+-- both the unreferred and the referred discount defined) on the on-chain unit 10^20
+example : (2500000000000000000 : Nat) ≤ 12250000000000000000 :=
+  referred_ge_unreferred (U := 10 ^ 20) (maxRank := 9) (factors := List.replicate 16 (25 * 10 ^ 17)) (referral := 10 ^ 19) (rank := 1)
+    (by intro f hf; rw [List.eq_of_mem_replicate hf]; decide) rfl rfl
+example : (12250000000000000000 : Nat) ≤ 10 ^ 20 :=
+  (discount_le_unit (U := 10 ^ 20) (maxRank := 9) (factors := List.replicate 16 (25 * 10 ^ 17)) (referral := 10 ^ 19) (rank := 1)
+    (isReferred := true) (by intro f hf; rw [List.eq_of_mem_replicate hf]; decide) rfl).2
+example : ∃ d, combine (10 ^ 20) (25 * 10 ^ 17) (10 ^ 19) = .ok d :=
+  combine_total (by decide) (by decide) (by decide) (by decide)
+
 end Gmx.C31
